@@ -38,8 +38,8 @@ def mon(case, obs):
 def coq_term(case, obs):
     """model == implementation on the whole observation, the Coq monitor accepts the model's trace, and the
     Coq finding-class verdict (a run stopped behind a rewind) equals the Python mirror's"""
-    if obs.get("errors"):
-        return None
+    if obs.get("errors") or case.get("oracle_only"):
+        return None        # oracle-only families use ingredients the engine model lacks: counted as not modelled
     try:
         e = engine_encode.Enc(case, obs).encode()
     except engine_encode.Unsupported:
@@ -69,6 +69,13 @@ def _work(chunk):
     for c in chunk:
         try:
             o = run_case(c)
+            if c.get("oracle_only"):
+                # these cases are judged on the whole observation of this driver
+                o = json.loads(json.dumps(o, default=str))
+                o["verdict"] = check_docinfo(o.get("docinfo", []), strict_refs=False)
+                o.pop("docinfo", None)
+                res.append(o)
+                continue
             res.append({"errors": o.get("errors", []), "ndocs": len(o.get("docinfo", [])), "verdict": check_docinfo(o.get("docinfo", []))})
         except Exception as e:  # pragma: no cover
             res.append({"errors": ["worker: %r" % (e,)], "ndocs": 0, "verdict": None})
